@@ -5,7 +5,7 @@
    literally [forall script : list decision] (any length, any reply codes and texts, drops anywhere). *)
 From Coq Require Import String.
 From Verif Require Import Bytes Textproto SendErr RefServer SmtpSend SmtpSendGen.
-From VerifProofs Require Import SmtpSendProofs SmtpSendGenProofs SmtpSendCorollaries SmtpSendDialProofs SmtpSendRefuted.
+From VerifProofs Require Import SmtpSendProofs SmtpSendGenProofs SmtpSendCorollaries SmtpSendDialProofs SmtpSendProgramsProofs SmtpSendRefuted.
 
 (* T1: the source under test has the expectCode literals and the recovery actions the theorems assume *)
 Theorem C04_source_expect_codes : gen_expects = std_expects.
@@ -69,6 +69,28 @@ Theorem C04_ext_map_replaced : forall (F : fixes), dialogue_repaired F ->
   end.
 Proof. exact dial_ext. Qed.
 Print Assumptions C04_ext_map_replaced.
+
+(* Entry points.  run_case is the dialogue of DialAndSendWithContext, DialAndSend, DialWithContext + Send + Close and,
+   per connection, DialToSMTPClientWithContext + SendWithSMTPClient + CloseWithSMTPClient.  SendWithSMTPClient is a
+   step that preserves the invariant, so any number of batches may follow each other on one connection; the
+   program Dial; Send(ms1); Reset; Send(ms2); Close is legal and in step for all scripts as well. *)
+Theorem C04_send_preserves_invariant : forall (F : fixes), dialogue_repaired F ->
+  forall cfg render ms st st' r rs,
+  Inv st -> send_batch std_expects F cfg render ms st = (st', (r, rs)) ->
+  Inv st' /\ w_commits (snd st') = w_commits (snd st) ++ batch_commits render ms rs /\
+  (if attempted r then Forall2 (msg_post render) ms rs else rs = untouched ms).
+Proof. exact send_batch_inv. Qed.
+Print Assumptions C04_send_preserves_invariant.
+
+Theorem C04_legal_reset_program : forall (F : fixes), dialogue_repaired F ->
+  forall cfg render caps caps_tls script ms1 ms2,
+  let o := run_reset std_expects F cfg caps caps_tls script ms1 ms2 render in
+  all_legal (p_world o) = true /\ all_attributed (p_world o) = true /\
+  w_commits (p_world o) = batch_commits render ms1 (p_results1 o) ++ batch_commits render ms2 (p_results2 o) /\
+  (if attempted (p_ret1 o) then Forall2 (msg_post render) ms1 (p_results1 o) else p_results1 o = untouched ms1) /\
+  (if attempted (p_ret2 o) then Forall2 (msg_post render) ms2 (p_results2 o) else p_results2 o = untouched ms2).
+Proof. exact run_reset_spec. Qed.
+Print Assumptions C04_legal_reset_program.
 
 (* After every message of every batch (failed or not), the next one starts from a clean transaction —
    server idle, not in data mode, no unread reply, no open dot-writer — or the connection is closed. *)
